@@ -345,7 +345,11 @@ func ruleDevFields(c *Ctx) []Obligation {
 					}
 				}
 				present := false
-				for _, g := range guardsAt(at) {
+				gs := guardsAt(at)
+				if at != st.Block() {
+					gs = append(gs, guardsAt(st.Block())...)
+				}
+				for _, g := range gs {
 					if presenceTest(g, leaf) {
 						present = true
 					}
